@@ -220,3 +220,54 @@ Proof.
 Qed.
 Lemma Z_of_N_mod (a c : N) : c <> 0 -> Z.of_N (a mod c) = (Z.of_N a mod Z.of_N c)%Z.
 Proof. intros H. now apply N2Z.inj_mod. Qed.
+
+(* ================================================================================================================
+   Shape-independent statements and proofs (so that a behaviour-preserving rewrite of the Go function does not
+   break its lemma).
+   ================================================================================================================ *)
+
+(* ---- results that may or may not have a panic path ----
+   gotrans types a function `option T` as soon as its text contains an operation that can panic (an index, a loop
+   that it translates with fuel or through go_flow) and `T` otherwise; a rewrite can move a function from one to the
+   other.  Lemmas are stated through go_res: "the source never panics here and returns ...", whatever the type. *)
+Class GoRes (T R : Type) := go_res : T -> option R.
+#[global] Instance GoRes_option (R : Type) : GoRes (option R) R := fun x => x.
+#[global] Instance GoRes_total (R : Type) : GoRes R R := fun x => Some x.
+
+(* ---- functions of an item code / a byte: the finite part by evaluation, the rest by lia ----
+   for a goal  F t = G (Z.of_N t)  (F the model's table or predicate, G the translated function: a switch, a chain of
+   ifs, a lookup in a set or a table, a range test ...): below `bound` both sides are evaluated on every code, from
+   `bound` on every comparison of t with a literal is decided by lia. *)
+Lemma st_split_below (P : N -> Prop) (bound : N) :
+  (forall t, t < bound -> P t) -> (forall t, bound <= t -> P t) -> forall t, P t.
+Proof. intros H1 H2 t. destruct (N.ltb t bound) eqn:E; [apply H1|apply H2]; lia. Qed.
+
+Lemma st_below_bool (F G : N -> bool) (bound : N) :
+  forallb (fun t => Bool.eqb (F t) (G t)) (nrange bound) = true -> forall t, t < bound -> F t = G t.
+Proof. intros H t Ht. apply Bool.eqb_prop. now apply (forall_below (fun t => Bool.eqb (F t) (G t)) bound). Qed.
+
+Lemma st_below_Z (F G : N -> Z) (bound : N) :
+  forallb (fun t => Z.eqb (F t) (G t)) (nrange bound) = true -> forall t, t < bound -> F t = G t.
+Proof. intros H t Ht. apply Z.eqb_eq. now apply (forall_below (fun t => Z.eqb (F t) (G t)) bound). Qed.
+
+(* unfold every package-level table that a lookup of the goal reads (whatever its name) and the lookups themselves *)
+Ltac st_unfold_tables :=
+  repeat match goal with
+         | |- context [go_lookup_z _ ?t _] => is_const t; unfold t
+         | |- context [go_assoc_z _ ?t] => is_const t; unfold t
+         | |- context [go_lookup_s _ ?t _] => is_const t; unfold t
+         | |- context [go_has_s _ ?t] => is_const t; unfold t
+         | |- context [go_has_z _ ?t] => is_const t; unfold t
+         end.
+
+(* a lookup in a literal table whose keys are all decided by lia *)
+Ltac st_decide_lookups :=
+  cbv [go_lookup_z go_assoc_z go_has_z];
+  repeat match goal with
+         | |- context [if ?c then _ else _] =>
+             lazymatch c with
+             | true => fail
+             | false => fail
+             | _ => first [ replace c with true by lia | replace c with false by lia ]
+             end; cbv iota
+         end.
